@@ -2,6 +2,22 @@ package main
 
 // propRules: which rules decide which property.
 var propRules = map[string][]ruleSpec{
+	"C06": {
+		{"R12", "ONNX slot layout, gate roles, state threading, output shapes, time slice", ruleR12},
+		{"R8", "attributes honoured or refused", ruleR8},
+		{"R9c", "activations[k] covered by a length check", ruleR9Activations},
+		{"R18", "no select-by-multiplication in activations", ruleR18},
+		{"R10", "Repeat only as a guarded stretch", ruleR10},
+		{"R6", "float32 admitted (T8)", ruleR6},
+		{"R3", "initial states / weights not modified (E2)", ruleR3},
+		{"R21", "attribute state read-only after Init", ruleR21},
+	},
+	"C16": {
+		{"R11", "Conv batch-index pairing (K2, K3)", ruleR11},
+		{"R12", "recurrent output reshape provenance and time slice (P6, P7)", ruleR12},
+		{"R10", "Repeat only as a guarded stretch in per-sample operators", ruleR10},
+		{"R21", "attribute state read-only after Init", ruleR21},
+	},
 	"C05": {
 		{"R11", "Conv geometry: loop/coordinate pairing (K2,K3), index kinds (K1), auto_pad (K4)", ruleR11},
 		{"R6", "float32/float64 admitted (T8)", ruleR6},
